@@ -8,7 +8,7 @@ use crate::model::{F, MV};
 use proptest::prelude::*;
 use serde::{Deserialize, Serialize};
 
-pub const RULE: &str = "(list of length 0..10, and of length 60..200, callee) pairs: the callee is drawn from a table of lambdas of arity 1, 2, optional-index, rest and optional-plus-rest shape, closures, self-recursive (fact, fib) and mutually recursive late-bound (is_even / is_odd) named functions, predicates that fail on some element, non-boolean predicates, anonymous lambdas, and built-ins of every arity class (exactly one, one-or-two, at-least-one, exactly two); both equivalent forms are evaluated in one environment and must give the same value or both fail; reduce is compared with a left fold the harness assembles from single applications, also from initial values that are functions; recording callbacks expose the (element, index) protocol; the same recursion written with `n - 1 into f` and with `f(n - 1)` is compared at depths 0..990; functions that refer to each other and are local to a do-block / function body are used through every form. Non-trivial = non-empty list and a callee that is named-recursive, of arity != 1, or a built-in; distinct by (list, callee).";
+pub const RULE: &str = "(list of length 0..10, and of length 60..200, callee) pairs: the callee is drawn from a table of lambdas of arity 1, 2, optional-index, rest and optional-plus-rest shape, closures, self-recursive (fact, fib) and mutually recursive late-bound (is_even / is_odd) named functions, predicates that fail on some element, non-boolean predicates, anonymous lambdas, and built-ins of every arity class (exactly one, one-or-two, at-least-one, exactly two); both equivalent forms are evaluated in one environment and must give the same value or both fail; reduce is compared with a left fold the harness assembles from single applications, also from initial values that are functions; recording callbacks expose the (element, index) protocol; pipelines in one expression (`l where p via f`, `l via f where p`, `range(a, b) via f`, literal and spread lists) are compared with the composition of their stages; the same recursion written with `n - 1 into f` and with `f(n - 1)` is compared at depths 0..990; functions that refer to each other and are local to a do-block / function body are used through every form. Non-trivial = non-empty list and a callee that is named-recursive, of arity != 1, or a built-in; distinct by (list, callee).";
 pub const ASSUMPTIONS: &[&str] = &[
     "failure is compared by status (both forms fail / both succeed with equal values), not by message",
     "every/some are compared with the conjunction / disjunction only when the predicate succeeds with a boolean on every element",
@@ -309,6 +309,16 @@ impl Check for Forms {
                 cmp("into-apply", format!("x into {}", callee), format!("{}(x)", callee))?;
                 cmp("into-apply-list", format!("l into {}", callee), format!("{}(l)", callee))?;
                 cmp("where-filter", format!("l where {}", callee), format!("filter(l, {})", callee))?;
+                // pipelines written in one expression are the composition of their stages: the
+                // second stage sees positions in the list the first stage produced
+                cmp("where-then-via", format!("l where big via {}", callee), format!("map(filter(l, big), {})", callee))?;
+                cmp("where-then-via-named", format!("l where evenidx via {}", callee), format!("(kept => (kept via {}))(l where evenidx)", callee))?;
+                cmp("via-then-where", format!("l via inc where {}", callee), format!("filter(map(l, inc), {})", callee))?;
+                cmp("range-via", format!("range(2, 2 + len(l) % 5) via {}", callee), format!("map(range(2, 2 + len(l) % 5), {})", callee))?;
+                cmp("range-via-named", format!("range(3, 6) via {}", callee), format!("(r => (r via {}))(range(3, 6))", callee))?;
+                cmp("range-where", format!("range(1, 5) where {}", callee), format!("filter(range(1, 5), {})", callee))?;
+                cmp("literal-list-via", format!("[7, 8, 9] via {}", callee), format!("map([7, 8, 9], {})", callee))?;
+                cmp("spread-list-via", format!("[...l, 1] via {}", callee), format!("map([...l, 1], {})", callee))?;
                 // argument protocol: the same calls the harness makes one by one
                 let with_index = accepts(min, max, 2);
                 let mut expected: Vec<Obs> = Vec::new();
